@@ -78,11 +78,52 @@ def _is_attr(n, base, attr):
     return isinstance(n, ast.Attribute) and n.attr == attr and _is_name(n.value, base)
 
 
-def norm_dump(node_or_list):
-    """position-free, docstring-free dump of a statement list"""
-    if isinstance(node_or_list, list):
-        return '[' + ', '.join(ast.dump(n, annotate_fields=True, include_attributes=False) for n in _strip_doc(node_or_list)) + ']'
-    return ast.dump(node_or_list, annotate_fields=True, include_attributes=False)
+class _Alpha(ast.NodeTransformer):
+    """renames the local variables of one function (parameters and assigned names) to v0, v1, … in order of
+    first occurrence, so that a pure renaming is not a structural difference"""
+    def __init__(self, locals_):
+        self.locals_, self.map = locals_, {}
+
+    def _n(self, name):
+        if name in self.locals_:
+            return self.map.setdefault(name, 'v%d' % len(self.map))
+        return name
+
+    def visit_Name(self, node):
+        return ast.copy_location(ast.Name(id=self._n(node.id), ctx=node.ctx), node)
+
+    def visit_arg(self, node):
+        return ast.copy_location(ast.arg(arg=self._n(node.arg), annotation=None), node)
+
+    def visit_FunctionDef(self, node):
+        node = self.generic_visit(node)
+        node.name = self._n(node.name)
+        return node
+
+
+def _local_names(fn):
+    names = set()
+    for n in ast.walk(fn):
+        if isinstance(n, ast.arg):
+            names.add(n.arg)
+        elif isinstance(n, ast.Name) and isinstance(n.ctx, ast.Store):
+            names.add(n.id)
+        elif isinstance(n, ast.FunctionDef) and n is not fn:
+            names.add(n.name)
+    return names
+
+
+def norm_fn(fn):
+    """position-free, docstring-free, alpha-normalised dump of a function (parameters + body)"""
+    import copy
+    fn = copy.deepcopy(fn)
+    fn.decorator_list = []
+    fn.returns = None
+    fn.body = _strip_doc(fn.body) or [ast.Pass()]
+    name = fn.name
+    fn = _Alpha(_local_names(fn)).visit(fn)
+    fn.name = name
+    return ast.dump(fn, annotate_fields=True, include_attributes=False)
 
 
 def translate_method(cname, fn):
@@ -216,8 +257,12 @@ def dtype_to_str(dtype):
 }
 
 
-def _expect_body(name):
-    return norm_dump(ast.parse(EXPECT_SRC[name]).body[0].body)
+def _as_expected(fn):
+    """does the function have the statement structure recorded in EXPECT_SRC (up to renaming of locals)?"""
+    return norm_fn(fn) == norm_fn(ast.parse(EXPECT_SRC[fn.name]).body[0])
+
+
+WRAPPER_NOTES = []
 
 
 def translate_fdo(fn):
@@ -226,14 +271,12 @@ def translate_fdo(fn):
     decs = [d.id for d in fn.decorator_list if isinstance(d, ast.Name)]
     if decs != ['classmethod'] or len(fn.decorator_list) != 1:
         raise TranslationError('%s: not a plain classmethod' % where)
-    if fn.name == 'numeric_divmod':
-        if norm_dump(fn.body) != _expect_body('numeric_divmod'):
-            raise TranslationError('%s: body differs from the modelled statement list' % where)
-        return 'W_divmod', 'Np_divmod'
-    if fn.name == 'logical_not':
-        if norm_dump(fn.body) != _expect_body('logical_not'):
-            raise TranslationError('%s: body differs from the modelled statement list' % where)
-        return 'W_unary', 'Np_logical_not'
+    if fn.name in ('numeric_divmod', 'logical_not'):
+        # whole-body functions: compared structurally with the statements the model mirrors; a difference is
+        # reported through gen_wrappers_ok (obligation gen_wrappers_unchanged), the entry itself is by name
+        if not _as_expected(fn):
+            WRAPPER_NOTES.append('%s differs from the modelled statement list' % where)
+        return ('W_divmod', 'Np_divmod') if fn.name == 'numeric_divmod' else ('W_unary', 'Np_logical_not')
     params = [x.arg for x in fn.args.args]
     body = _strip_doc(fn.body)
     if len(body) != 1 or not isinstance(body[0], ast.Return) or not isinstance(body[0].value, ast.Call):
@@ -398,6 +441,7 @@ def translate(path):
                 raise TranslationError('FieldDataOps.%s defined twice' % st.name)
             fdo_funcs[st.name] = st
     ops = []
+    del WRAPPER_NOTES[:]
     used = sorted({e[2] for e in table})
     for f in FDO:
         if f not in fdo_funcs:
@@ -406,20 +450,17 @@ def translate(path):
             continue
         w, o = translate_fdo(fdo_funcs[f])
         ops.append((FDO_COQ[f], w, o))
-    wrappers_ok = True
-    notes = []
+    notes = list(WRAPPER_NOTES)
     for nm in ('_binary_op', '_unary_op'):
         st = fdo_funcs.get(nm)
         good = (st is not None and [d.id for d in st.decorator_list if isinstance(d, ast.Name)] == ['staticmethod']
-                and [x.arg for x in st.args.args] == [x.arg for x in ast.parse(EXPECT_SRC[nm]).body[0].args.args]
-                and norm_dump(st.body) == _expect_body(nm))
+                and len(st.decorator_list) == 1 and _as_expected(st))
         if not good:
-            wrappers_ok = False
             notes.append('FieldDataOps.%s differs from the modelled statement list' % nm)
     d2s = [n for n in tree.body if isinstance(n, ast.FunctionDef) and n.name == 'dtype_to_str']
-    if len(d2s) != 1 or norm_dump(d2s[0].body) != _expect_body('dtype_to_str'):
-        wrappers_ok = False
+    if len(d2s) != 1 or d2s[0].decorator_list or not _as_expected(d2s[0]):
         notes.append('dtype_to_str differs from the modelled statement list')
+    wrappers_ok = not notes
     # a wrapper that no longer has the modelled statement list does not abort the translation: it makes
     # gen_wrappers_ok false, i.e. exactly the obligation gen_wrappers_unchanged fails
     digest = hashlib.sha256(json.dumps([table, ufunc, ops], sort_keys=True).encode()).hexdigest()[:16]
